@@ -48,7 +48,7 @@ MANIFEST = dict(
          "later calls fail. Each run is a separate process. A failing operation must coincide with an injected failure, containers must equal their model "
          "after every operation (so a failed operation changed nothing), refused registrations/requests must never call back and must be repeatable, "
          "cancel/delete/free paths must work under persistent failure, and after releasing everything no library allocation may remain at exit. "
-         "This is fault enumeration, not sampling: within each base case every allocation site reached is failed.",
+         "This is fault enumeration, not sampling: within each base case every allocation site reached is failed. The buffered writer is used again after a refused write or reserve and what the peer received must be a prefix of the writes; one http request in four goes through https_request (TLS sources linked, the simulated peer fails the handshake), connects use per-address timeouts in half of the cases.",
     note="Trusted: the tracking allocator, the kernel model, clang 14 sanitizers, rapidcheck. Base cases are sampled; the enumeration inside each base case is "
          "complete up to 400 allocation calls (subsampled above, recorded as class k-subsampled).",
 )
